@@ -13,8 +13,8 @@
    and NOT proved: that a closed chain is exactly ONE ring (join_closes_rings, full statement
    below), the geometric correctness of ray casting (holes_assigned) and the composition
    build_polygon_recovers. *)
-From Coq Require Import ZArith List Bool Permutation.
-From Verif Require Import Geo.Model Geo.JoinProofs Geo.Conserve Geo.Closes Geo.Cut Geo.Orient Geo.Sources.
+From Coq Require Import ZArith List Bool Permutation Lia.
+From Verif Require Import Geo.Model Geo.JoinProofs Geo.Conserve Geo.Closes Geo.Cut Geo.Orient Geo.Sources Geo.Holes.
 Import ListNotations.
 Open Scope Z_scope.
 
@@ -131,6 +131,29 @@ Theorem C16_coordinate_sources : forall nodes ids,
 Proof. exact way_to_line_sources. Qed.
 Print Assumptions C16_coordinate_sources.
 
+(* 7. holes_assigned.  FULL STATEMENT (not proved): with simple, pairwise disjoint, non-nested
+      outers and every hole strictly inside one outer, folding add_to_multipolygon over the holes
+      puts each hole into the polygon of its own outer and no other.
+      PROVED (partial): (a) whenever ray casting answers "inside outer k" and "not inside any
+      other outer", the hole is appended to polygon k and nothing else changes, whatever the
+      order of the polygons; later holes are tested against the same outer rings;
+      (b) ray casting answers "not inside" for every ring whose vertices lie outside the bounding
+      box of the outer (the situation of outers in disjoint grid cells).
+      MISSING: ray casting answers "inside" for a ring strictly inside a simple outer (Jordan
+      curve side); the harness compares polygonContains with the exact rational even-odd rule. *)
+Theorem C16_holes_assigned_partial : forall incl mp ring k poly,
+  nth_error mp k = Some poly ->
+  polygon_contains (hd [] poly) ring = true ->
+  (forall j p, j <> k -> nth_error mp j = Some p -> polygon_contains (hd [] p) ring = false) ->
+  add_to_multipolygon incl mp ring = firstn k mp ++ (poly ++ [ring]) :: skipn (S k) mp.
+Proof. exact holes_assigned. Qed.
+Print Assumptions C16_holes_assigned_partial.
+
+Theorem C16_contains_outside_bbox : forall outer r,
+  (forall p, In p r -> outside_bbox outer p) -> polygon_contains outer r = false.
+Proof. exact contains_outside_bbox. Qed.
+Print Assumptions C16_contains_outside_bbox.
+
 (* build_polygon_recovers.  FULL STATEMENT (not proved): for every valid scene (Spec.scene_ok +
    simple, disjoint, strictly nested rings), every valid cut, reversal, member/node order, both
    coordinate sources and truthful-or-absent orientations,
@@ -186,3 +209,25 @@ Example ex_sources :
   way_to_line [] (map (annotated nodes) [3; 7; 9]) = ([(1,1); (5,1); (5,5)], false) /\
   way_to_line nodes (map bare [3; 7; 9]) = ([(1,1); (5,1); (5,5)], false).
 Proof. vm_compute. split; reflexivity. Qed.
+
+(* a hole of the second polygon: outside the bounding box of the first outer, inside its own *)
+Definition ex_mp : multipolygon :=
+  [[[(1,1); (5,1); (5,5); (1,5); (1,1)]]; [[(10,1); (20,1); (20,9); (10,9); (10,1)]]].
+Definition ex_hole : line := [(12,3); (12,5); (14,5); (12,3)].
+Example ex_hole_outside_first : forall p, In p ex_hole -> outside_bbox [(1,1); (5,1); (5,5); (1,5); (1,1)] p.
+Proof.
+  intros p Hp. right; right; left. intros q Hq. simpl in Hp, Hq.
+  repeat (destruct Hq as [<-|Hq]; [repeat (destruct Hp as [<-|Hp]; [simpl; lia|]); destruct Hp|]). destruct Hq.
+Qed.
+Example ex_holes_assigned :
+  add_to_multipolygon false ex_mp ex_hole =
+  [[[(1,1); (5,1); (5,5); (1,5); (1,1)]]; [[(10,1); (20,1); (20,9); (10,9); (10,1)]; ex_hole]].
+Proof.
+  apply (C16_holes_assigned_partial false ex_mp ex_hole 1 [[(10,1); (20,1); (20,9); (10,9); (10,1)]]).
+  - reflexivity.
+  - vm_compute. reflexivity.
+  - intros [|[|j]] p Hj Hn; simpl in Hn.
+    + inversion Hn; subst. apply C16_contains_outside_bbox. exact ex_hole_outside_first.
+    + congruence.
+    + destruct j; discriminate.
+Qed.
